@@ -53,3 +53,9 @@ Definition ustage_of (bi : list name) (ns : list (list name)) (p : program) : na
   if u1_block p && nodup_events (imp_events (bsrcs_block false p)) then 1
   else if u2_block p && imports_once bi ns p && nodup_events (imp_events (bsrcs_block false p)) then 2
   else if u3_block p && imports_once bi ns p && nodup_events (imp_events (bsrcs_block false p)) then 3 else 0.
+
+(* the same for what tidy-imports runs: the report with parse_docstrings=True against the trace with the doctest examples *)
+Definition unused_doc_sound_b (bi : list name) (ns : list (list name)) (p : program) : bool :=
+  let tr := pysem_doc bi ns p in
+  forallb (fun u : nat * import => negb (existsb (fun r : rd => is_bound_to (fst u) (snd u) (snd r)) tr))
+          (snd (finder_doc bi ns p)).
